@@ -256,6 +256,22 @@ package placement
 //@   modifies nothing
 //@ pure sortedRanges(rl ruleList) = forall a, b :: 0 <= a && a < b && b < len(rl.ranges) ==> keycmp(rl.ranges[a].startKey, rl.ranges[b].startKey) < 0
 
+// Initialize / loadRules: the loader treats every key that is already in the configuration as a duplicate and DELETES its
+// stored record, so it must start from an empty configuration - also when an earlier Initialize on the same manager failed
+// half-way (Server.SetReplicationConfig retries on the same manager).
+//@ func (*RuleManager).loadRules
+//@   assumed
+//@   requires [loads-into-an-empty-configuration] m.ruleConfig != nil && m.ruleConfig.rules != nil && len(m.ruleConfig.rules) == 0
+//@   modifies *
+//@ func (*RuleManager).loadGroups
+//@   assumed
+//@   modifies *
+//@ func (*RuleManager).Initialize
+//@   props C13
+//@   requires m != nil && m.storage != nil
+//@   option nosafety
+//@   modifies *
+
 // loadGroups' per-entry callback: every stored group configuration is decoded into an object of its own - whatever the
 // callback puts into the served group map did not exist before the call (no two group ids can end up sharing one object).
 //@ func (*RuleManager).loadGroups$1
